@@ -133,7 +133,7 @@ def split_clauses(sig):
             counts[section] = counts.get(section, 0) + 1
             tag = None
             props = None
-            m = re.search(r'//\s*#(\w[\w.\-]*)', txt)
+            m = re.search(r'//[^\n]*?#(\w[\w.\-]*)', txt)
             if m:
                 tag = m.group(1)
             m = re.search(r'//.*\[((?:C\d+[ ,]*)+)\]', txt)
